@@ -45,6 +45,12 @@ CLAIMED = {
          "three n x n matrices equals the closed form of the statement (position quantity x f / f^2 for same rotation, folded rotation quantity for "
          "same position, zero otherwise), symmetric, empty diagonal, stored entries > 0, identical indices/indptr and coo order for the three, "
          "volume_n = V_pos[n div n_b] * V_rot[n mod n_b] * f^3.", "§5 C02"),
+ "C19": ("Exhaustive over the size box (n_b,n_o in 1..5, n_t in 1..4; thorough 1..7 / 1..5, plus the non-default algorithms) x both position modes x "
+         "five getters: the REAL constructors, name/translation parsers, generators, the size threshold choosing the cell model and the real "
+         "MikroVoronoi run; Qhull-backed Voronoi classes are contract stubs with symbolic positive values. On every feasible path each getter returns "
+         "the right shape (volumes proved positive) or raises ValueError (Cartesian n_o<3: QhullError allowed). Sizes are enumerated, so the solver's "
+         "share is small here (stub values only) -- said plainly in DESIGN; the failing mechanisms are in molgri's Python dispatch, which the run reaches. "
+         "Counterexamples are replayed through the public API with real Qhull.", "§5 C19"),
 }
 NA = {
  "C03": "Claim is that Qhull's SphericalVoronoi regions/areas are the true nearest-neighbour cells: compiled geometry with no encodable source; a stub would assume the property (the symmetric assembly around it is verified under C04).",
